@@ -342,6 +342,8 @@ def theorem_end_line(vfile, name):
 SAN_RE = re.compile(r'(ERROR: AddressSanitizer: [a-z\-]+|runtime error: [^\n]*|ERROR: LeakSanitizer[^\n]*|AddressSanitizer:DEADLYSIGNAL|SEGV[^\n]*)')
 LOC_RE = re.compile(r'(/repo/[A-Za-z0-9_/\.\-]+:\d+)')
 
+MAX_CRASHES = 80     # after that many aborts the rest of a stream is not run (the verdict is settled; every abort costs a process start)
+
 def run_harness(ctx, lines, env_extra=None, timeout=600, exe=None):
     """feed command lines to the C harness; returns one output string per line.
     A sanitizer abort or crash yields 'CRASH <kind> <site>' for the offending line and the run resumes after it."""
@@ -352,7 +354,11 @@ def run_harness(ctx, lines, env_extra=None, timeout=600, exe=None):
     env['UBSAN_OPTIONS'] = 'print_stacktrace=1'
     if env_extra:
         env.update(env_extra)
+    crashes = 0
     while i < len(lines):
+        if crashes >= MAX_CRASHES:
+            out += ['SKIPPED (more than %d aborts in this stream)' % MAX_CRASHES] * (len(lines) - i)
+            break
         chunk = lines[i:i + 150]        # blocks: after a crash only the rest of the block is fed again
         try:
             r = sh([exe or ctx['hx']], inp=('\n'.join(chunk) + '\n').encode(), env=env, timeout=timeout)
@@ -374,6 +380,7 @@ def run_harness(ctx, lines, env_extra=None, timeout=600, exe=None):
             locs = LOC_RE.findall(err)
             out.append('CRASH %s %s' % (kind, locs[0] if locs else '?'))
             i += 1
+            crashes += 1
     return out
 
 def run_oracle(ctx, lines, timeout=900, fbe=False):
